@@ -1451,6 +1451,19 @@ class SyncObj(object):
         else:
             data = None
         cluster = self.__otherNodes | {self.__selfNode}
+        # The dump describes the log up to lastApplied: changes made by later entries are not part of it.
+        for entry in reversed(self.__getEntries(self.__raftLastApplied + 1)):
+            clusterChangeRequest = self.__parseChangeClusterRequest(entry[0])
+            if clusterChangeRequest is not None:
+                changedNode = clusterChangeRequest[2] if len(clusterChangeRequest) >= 3 else clusterChangeRequest[1]
+                if not isinstance(changedNode, Node):
+                    changedNode = self.__nodeClass(changedNode)
+                if changedNode == self.__selfNode:
+                    continue
+                if clusterChangeRequest[0] == 'add':
+                    cluster.discard(changedNode)
+                elif clusterChangeRequest[0] == 'rem':
+                    cluster.add(changedNode)
         extra = ()
         if data is None:
             # with a custom serializer the object state (which carries the enabled code version) is not
